@@ -19,6 +19,8 @@ func main() {
 	os.Setenv("AWS_REGION", "dummy")
 	os.Setenv("AWS_ACCESS_KEY_ID", "dummy")
 	os.Setenv("AWS_SECRET_ACCESS_KEY", "dummy")
+	// the sandbox sets AWS_CA_BUNDLE, which makes the AWS SDK itself race when sessions are created concurrently
+	os.Unsetenv("AWS_CA_BUNDLE")
 	in := flag.String("scenarios", "", "scenario file (NDJSON)")
 	out := flag.String("out", "", "trace file (NDJSON, appended)")
 	skip := flag.Int("skip", 0, "skip this many scenarios")
@@ -85,6 +87,8 @@ func runScenario(tr *Tracer, s *Scenario, idx int) {
 		ok = runSched(tr, s)
 	case "rowapi":
 		ok = runRowAPI(tr, s)
+	case "threads":
+		ok = runThreads(tr, s)
 	case "kv":
 		ok = runKV(tr, s)
 	case "order":
